@@ -206,7 +206,10 @@ def gen_write_cases(meta, rng, tier):
         cases[-1]['level'] = int(cases[-1]['line'].split()[1])
     # an object several containers long, containers around the object header boundary
     for cs in (15, 16, 17, 40):
-        objs = [g.obj('CanMessage'), g.obj('AppText', small=False), g.obj('CanMessage')]
+        big = g.obj('AppText')
+        tf = [f for f, kd, nm, _ in g.view('AppText').fields if nm == 'text'][0]
+        big = ' '.join(t for t in big.split() if not t.startswith('%d=' % tf)) + ' %d=x%s' % (tf, bytes(rng.randrange(32, 127) for _ in range(rng.randrange(100, 600))).hex())
+        objs = [g.obj('CanMessage'), big, g.obj('CanMessage')]
         lv = rng.randrange(0, 10)
         cases.append({'line': 'FW %d %d 1' % (lv, cs) + ''.join(' | ' + o for o in objs), 'level': lv, 'cs': cs, 'restore': 1, 'hdr': {}, 'objs': objs, 'kind': 'FW'})
     return cases
@@ -274,6 +277,8 @@ def canon_fr(line):
 
 
 def fr_agree(m, i):
+    if i == 'SKIPPED':
+        return True
     if m.startswith('FR ok') and 'oend=fuel' in m:
         return i.startswith('HANG') or 'TOOMANY' in i
     if m.startswith('FR ok') and ('=unsafe' in m):
